@@ -1,5 +1,5 @@
 #!/usr/bin/env python3
-"""Known finding (not repaired): U8Gate.calc_params is singular on degenerate
+"""F39 (fixed by a4be128): U8Gate.calc_params was singular on degenerate
 single-qutrit unitaries.   exit 1 = the defect manifests."""
 import sys
 import warnings
